@@ -422,7 +422,8 @@ class Representation(ObjectWithFields):
             origin_time = 0
             mod_segment = 1
             drift = 0
-            end = ref_duration_tc
+            # a static manifest lists each stored segment exactly once
+            end = self.mediaDuration
         rv = []
         dur = 0
         s_node = SegmentTimelineElement(mod_segment=mod_segment)
